@@ -197,6 +197,16 @@ let run_case (line : string) : string =
            let env = { M.e_bound = true; e_params = binds; e_progs = progs; e_ufuncs = ufs;
                        e_runtime = true; e_now = Some M.Z0 } in
            print_res (M.exec (Lazy.force big_fuel) env entry) print_log)
+  | "tosql" ->
+      let src = decode_src (next t) in
+      (match M.parse_program (nat_of_int (List.length src + 20000)) src with
+       | M.POk (e, _) ->
+           (match M.sql_expr e with
+            | M.SqlOk txt -> "SQL " ^ hex_of_bytes (M.utf8_encode txt)
+            | M.SqlUnsupported -> "NOSQL"
+            | M.SqlUnmod -> "UNMOD")
+       | M.PErr l -> "CERR Esyn:" ^ loc_str l
+       | M.PFuel -> "MODEL_FUEL")
   | "jsonbind" ->
       let src = decode_src (next t) in
       let jb = parse_binds t in
